@@ -358,9 +358,26 @@ def run(ctx):
         if inst != 'mbox:first-write-after-pos-is-known':
             r3.check(v[0], inst, v[1], v[2], v[3])
     oa = db.fn('open_append.c', 'open_append')
-    oc = oa.calls('open')
-    fl = oc[0].args[1].const if oc else None
-    r3.check(fl is not None and (fl & 0o2000) == 0o2000, 'open_append-passes-O_APPEND', 'open_append.c', 'open flags %s' % (oct(fl) if fl is not None else None))
+
+    class OA(QHooks):
+        def __init__(self):
+            self.flags = []
+
+        def precise_arith(self, path):
+            return True
+
+        def prim_open(self, E, x, args):
+            v = args[1]
+            self.flags.append(next(iter(v)) if v is not TOP and len(v) == 1 else None)
+            return [Outcome(ret=fs(5)), Outcome(ret=fs(-1))]
+    oh = OA()
+    e_ = Engine(db, prog, oh)
+    e_.run(oa, {})
+    rep.count_states(e_.states, e_.transitions)
+    if not oh.flags:
+        raise AnalysisBroken('open_append: open() not reached')
+    r3.check(all(isinstance(f_, int) and (f_ & 0o2000) == 0o2000 and (f_ & 0o100) == 0o100 and (f_ & 3) == 1 for f_ in oh.flags), 'open_append-passes-O_APPEND', 'open_append.c',
+             'open flags %s (need O_WRONLY|O_APPEND|O_CREAT: without O_APPEND two deliveries that open the mbox before either locks it overwrite each other)' % [oct(f_) if isinstance(f_, int) else f_ for f_ in oh.flags])
     r3.expect_min(9)
 
     r4 = rep.rule('C12.4-mbox-quoting', 'R-GUARD', '">" is written exactly for lines gfrom() accepts; gfrom skips ">"s and compares 5 bytes with "From "; the From_ line maps space, tab and newline of the sender to "-"')
